@@ -211,6 +211,16 @@ Exp_apply(f, a) ==
                         ELSE f.dims[i]],
             !.vars = [i \in 1..Len(f.vars) |-> ApplyVar(a, f.vars[i])]]
 
+\* the stack dimension open_mfdataset chooses when none is named: the first
+\* unlimited dimension, else the first dimension with a conventional time name
+TimeDimNames == {"TSTEP", "time", "Time", "t"}
+DefaultStackDim(f) ==
+  LET us == {i \in 1..Len(f.dims) : f.dims[i].u}
+      ts == {i \in 1..Len(f.dims) : f.dims[i].n \in TimeDimNames}
+  IN IF us # {} THEN f.dims[CHOOSE i \in us : \A j \in us : i <= j].n
+     ELSE IF ts # {} THEN f.dims[CHOOSE i \in ts : \A j \in ts : i <= j].n
+     ELSE ""
+
 \* ================================================= "fuzzy" dimension addressing
 \* The string forms of the command line (slice_dim, reduce_dim) address the named
 \* dimension AND its numbered variants: every dimension whose name is the given
